@@ -109,6 +109,8 @@ func fnExprJS(e *sx) string {
 		return "Object.getPrototypeOf(" + fnExprJS(a[0]) + ")"
 	case "fcc":
 		return "String.fromCharCode(" + a[0].name + ")"
+	case "hfn":
+		return "__hostThis"
 	case "rgx":
 		return "/x/"
 	case "cnd":
